@@ -341,6 +341,7 @@ func C16(e *core.Env) int {
 		rep.Count("files_header_checked", results[i].files)
 	}
 	rep.Exhaustive = true
+	c16Chained(e, rep, bin, root)
 	return rep.Finish()
 }
 
@@ -351,4 +352,56 @@ func keysOf(m map[string]string) []string {
 	}
 	sort.Strings(k)
 	return k
+}
+
+// c16Chained: a converter whose package uses the generated code of another converter. The inner one is generated with
+// the defaults (its output carries //go:build !goverter); the outer one is generated with other tag settings, among
+// them "no tags, no constraint": then every file must be loaded, by both package loads.
+func c16Chained(e *core.Env, rep *core.Report, bin, root string) {
+	type variant struct {
+		name string
+		args []string
+		want string // constraint expected in the outer output ("" = none)
+	}
+	vs := []variant{
+		{"none", []string{"-build-tags", "", "-output-constraint", ""}, ""},
+		{"other", []string{"-build-tags", "outer", "-output-constraint", "!outer"}, "!outer"},
+		{"noconstraint", []string{"-build-tags", "outer", "-output-constraint", ""}, ""},
+	}
+	for _, v := range vs {
+		name := "chain_" + v.name
+		dir := filepath.Join(root, name)
+		writeFiles(dir, map[string]string{
+			"inner/input.go": "package inner\n\ntype In struct{ V int }\ntype Out struct{ V int }\n\n// goverter:converter\ntype Conv interface {\n\tConvert(source In) Out\n}\n",
+			"outer/input.go": "package outer\n\nimport (\n\t\"vcase/" + name + "/inner\"\n\t\"vcase/" + name + "/inner/generated\"\n)\n\ntype W struct{ I inner.In }\ntype WT struct{ I inner.Out }\n\nvar impl = &generated.ConvImpl{}\n\n// Use converts with the generated inner converter.\nfunc Use(i inner.In) inner.Out { return impl.Convert(i) }\n\n// goverter:converter\n// goverter:extend Use\ntype Outer interface {\n\tConvert(source W) WT\n}\n",
+		})
+		rep.Evaluations++
+		if gr := runGen(e, bin, dir, dir, []string{"gen", "./inner"}, nil); gr.Exit != 0 {
+			rep.Inconclusive = append(rep.Inconclusive, "chained scenario: generating the inner converter failed: "+head(gr.Stderr, 300))
+			continue
+		}
+		ok := true
+		for run := 1; run <= 2 && ok; run++ {
+			args := append(append([]string{"gen"}, v.args...), "./outer")
+			gr := runGen(e, bin, dir, dir, args, nil)
+			if gr.Exit != 0 {
+				rep.Violation(&core.Viol{Kind: "chained_generation_failed", Case: name, Summary: fmt.Sprintf("run %d of the outer converter (%s) failed although every file it needs is part of the build it was asked for: %s", run, strings.Join(v.args, " "), core.Classify(gr.Stderr)), Detail: fmt.Sprintf("args=%v\n%s", args, gr.Stderr), Dir: dir, Tags: []string{"layout:chained"}})
+				ok = false
+				break
+			}
+			b, _ := os.ReadFile(filepath.Join(dir, "outer", "generated", "generated.go"))
+			lines := strings.Split(string(b), "\n")
+			got := ""
+			if len(lines) > 1 && strings.HasPrefix(lines[1], "//go:build ") {
+				got = strings.TrimPrefix(lines[1], "//go:build ")
+			}
+			if got != v.want {
+				rep.Violation(&core.Viol{Kind: "header", Case: name, Summary: fmt.Sprintf("outer output has constraint %q, want %q", got, v.want), Detail: string(b), Dir: dir, Tags: []string{"layout:chained"}})
+				ok = false
+			}
+		}
+		if ok {
+			rep.NonTrivial("chained|" + v.name)
+		}
+	}
 }
